@@ -526,4 +526,37 @@ def run (s : St) : List Call → R
 /-- `Query._builder()` of a query class -/
 def init (fl : QFlags) : St := { r := { fl := fl } }
 
+
+/-! ## `_SetOperation`: its own builder methods, and the constructors on `QueryBuilder` (`union`, `intersect`, …) -/
+
+inductive SCall where
+  | orderby (args : List Arg) (order : Option Ord)
+  | limit (n : Nat) | offset (n : Nat)
+  | op (name : Str) (other : Query)            -- union / union_all / intersect / except_of / minus (and `+ * -`)
+
+def SetOp.baseFrom : SetOp → List Src
+  | .mk base _ _ _ _ _ => (QR.ofQ base).from_
+
+def stepS : SetOp → SCall → Except Str SetOp
+  | .mk base ops obs l o a, .orderby args order =>
+    let one (x : Arg) : Except Str (Term × Option Ord) :=
+      match x with
+      | .str n => (match (QR.ofQ base).from_ with
+                   | f :: _ => pure (mkField n (some (srcRef f)), order)
+                   | [] => .error "IndexError".toList)
+      | x => pure (wrapConst false x, order)
+    match args.mapM one with
+    | .ok ts => pure (.mk base ops (obs ++ ts) l o a)
+    | .error e => .error e
+  | .mk base ops obs _ o a, .limit n => pure (.mk base ops obs (some n) o a)
+  | .mk base ops obs l _ a, .offset n => pure (.mk base ops obs l (some n) a)
+  | .mk base ops obs l o a, .op name other => pure (.mk base (ops ++ [(name, other)]) obs l o a)
+
+def runS (s : SetOp) : List SCall → Except Str SetOp
+  | [] => pure s
+  | c :: cs => do runS (← stepS s c) cs
+
+/-- `QueryBuilder.union(other)` etc.: a new set operation whose base is the receiver -/
+def mkSetOp (s : St) (name : Str) (other : Query) : SetOp := .mk s.r.toQ [(name, other)] [] none none none
+
 end Pypika.B
